@@ -166,7 +166,11 @@ def execute(p, chooser):
             ex.shutdown(True)
             obs["thread_done"] = worker.done
         elif end == "exit":
+            t0 = det.S.now
             mevent.GLOBAL_HANDLER.on_exiting()
+            # the hook itself must make the worker leave: not a fallback timer that happens to expire later
+            det.wait_until(lambda: worker.done or det.S.now > t0)
+            obs["exit_prompt"] = worker.done
             det.wait_until(lambda: worker.done or det.S.now > 200)
             obs["thread_done"] = worker.done
             mevent.GLOBAL_HANDLER.shutdown = False
@@ -225,6 +229,9 @@ def monitor(r, obs):
                         "pattern": "reclaim:retained:%s:%s" % (p["kind"], ",".join(alive))})
     if obs["thread_done"] is False:
         out.append({"what": "worker thread still alive after %s" % p["end"], "detail": str(p), "pattern": "reclaim:thread-alive:" + p["end"]})
+    if obs.get("exit_prompt") is False and obs["thread_done"]:
+        out.append({"what": "the exit hook returned but the worker thread only left when a later timer expired", "detail": str(p),
+                    "pattern": "reclaim:exit-late:" + p["kind"]})
     if obs.get("late_done") and any(st in ("PENDING", "RUNNING") for st in obs["late_done"]):
         out.append({"what": "a pending future was not completed after the executor was dropped: %s" % obs["late_done"], "detail": str(p),
                     "pattern": "reclaim:pending-abandoned:" + p["kind"]})
